@@ -95,7 +95,10 @@ impl Selector {
                         for attr in attrs.iter() {
                             if &attr.name.local == "class" {
                                 for cls in attr.value.split_whitespace() {
-                                    if cls == class {
+                                    // The parser lower-cases identifiers, so names
+                                    // are compared ignoring ASCII case (as browsers
+                                    // do for documents without a doctype).
+                                    if cls.eq_ignore_ascii_case(class) {
                                         return Self::do_matches(&comps[1..], node);
                                     }
                                 }
@@ -108,7 +111,7 @@ impl Selector {
                     if let Element { attrs, .. } = &node.data {
                         let attrs = attrs.borrow();
                         for attr in attrs.iter() {
-                            if &attr.name.local == "id" && &*attr.value == hash {
+                            if &attr.name.local == "id" && attr.value.eq_ignore_ascii_case(hash) {
                                 return Self::do_matches(&comps[1..], node);
                             }
                         }
